@@ -237,7 +237,10 @@ func (g *GRE) NextLayerType() gopacket.LayerType {
 }
 
 func (g *GRE) VerifyChecksum() (error, gopacket.ChecksumVerificationResult) {
-	bytes := append(g.Contents, g.Payload...)
+	// Contents usually has spare capacity (it is a prefix of the packet data):
+	// a plain append would write the payload over itself inside the shared
+	// packet buffer, racing with every other reader of the packet. Force a copy.
+	bytes := append(g.Contents[:len(g.Contents):len(g.Contents)], g.Payload...)
 
 	existing := g.Checksum
 	verification := gopacket.ComputeChecksum(bytes, 0)
